@@ -30,6 +30,84 @@ type Prog struct {
 	globalIDs map[*ssa.Global]int
 	fnIDs     map[*ssa.Function]int
 	modsets   map[*ssa.Function]*ModSet
+	escaped   map[string]bool // struct field keys whose address escapes (computed once)
+}
+
+var curProg *Prog
+
+// fieldKey identifies a field of a named struct type.
+func fieldKey(t types.Type, i int) string { return fmt.Sprintf("%s#%d", typeKey(t), i) }
+
+func isCellType(t types.Type) bool {
+	switch t.Underlying().(type) {
+	case *types.Struct, *types.Array:
+		return false
+	}
+	return true
+}
+
+// computeEscapes: a field of a pprof-declared named struct is *private* when every
+// FieldAddr of it in the whole module is used only by direct loads and stores. Private
+// fields get their own memory (no pointer can alias them); the others share the
+// per-type memory with every other cell of that type.
+func (p *Prog) computeEscapes() {
+	p.escaped = map[string]bool{}
+	for fn := range ssautil.AllFunctions(p.SSA) {
+		if fn.Pkg == nil && fn.Parent() == nil {
+			continue
+		}
+		for _, b := range fn.Blocks {
+			for _, in := range b.Instrs {
+				fa, ok := in.(*ssa.FieldAddr)
+				if !ok {
+					continue
+				}
+				st := fa.X.Type().Underlying().(*types.Pointer).Elem()
+				ft := st.Underlying().(*types.Struct).Field(fa.Field).Type()
+				if !isCellType(ft) {
+					continue
+				}
+				refs := fa.Referrers()
+				if refs == nil {
+					continue
+				}
+				for _, r := range *refs {
+					switch x := r.(type) {
+					case *ssa.DebugRef:
+					case *ssa.UnOp:
+						if x.Op != token.MUL {
+							p.escaped[fieldKey(st, fa.Field)] = true
+						}
+					case *ssa.Store:
+						if x.Addr != fa || x.Val == fa {
+							p.escaped[fieldKey(st, fa.Field)] = true
+						}
+					default:
+						p.escaped[fieldKey(st, fa.Field)] = true
+					}
+				}
+			}
+		}
+	}
+}
+
+// fieldMem returns the name of the private memory of field i of struct type t, or "".
+func (p *Prog) fieldMem(t types.Type, i int) string {
+	n, ok := t.(*types.Named)
+	if !ok || n.Obj().Pkg() == nil || !strings.HasPrefix(n.Obj().Pkg().Path(), modPath) {
+		return ""
+	}
+	st, ok := t.Underlying().(*types.Struct)
+	if !ok || !isCellType(st.Field(i).Type()) {
+		return ""
+	}
+	if p.escaped == nil {
+		p.computeEscapes()
+	}
+	if p.escaped[fieldKey(t, i)] {
+		return ""
+	}
+	return "F_" + typeKey(t) + "." + st.Field(i).Name()
 }
 
 func LoadProg(pkgPaths []string) (*Prog, error) {
@@ -40,10 +118,9 @@ func LoadProg(pkgPaths []string) (*Prog, error) {
 		Env:        append(os.Environ(), "GOFLAGS=-mod=mod", "GOPROXY=off", "GOSUMDB=off", "GOTOOLCHAIN=local"),
 		Tests:      false,
 	}
-	var pats []string
-	for _, p := range pkgPaths {
-		pats = append(pats, modPath+"/"+p)
-	}
+	// the whole module is always loaded: whole-program facts (which struct fields never have
+	// their address taken, mod-sets) must not depend on which property is being checked
+	pats := []string{"./..."}
 	pkgs, err := packages.Load(cfg, pats...)
 	if err != nil {
 		return nil, err
@@ -62,6 +139,7 @@ func LoadProg(pkgPaths []string) (*Prog, error) {
 	prog.Build()
 	P := &Prog{Fset: prog.Fset, Pkgs: pkgs, SSA: prog, SSAPkgs: map[string]*ssa.Package{}, Contracts: map[string]*ContractFile{},
 		byName: map[string]*packages.Package{}, globalIDs: map[*ssa.Global]int{}, fnIDs: map[*ssa.Function]int{}, modsets: map[*ssa.Function]*ModSet{}}
+	curProg = P
 	for i, p := range pkgs {
 		P.SSAPkgs[p.PkgPath] = ssapkgs[i]
 		P.byName[p.PkgPath] = p
